@@ -646,6 +646,100 @@ def r11_inside_grid_request(repo: Repo, rep):
               f"n={w[0]}, {w[1]} kept: requests {w[2]} instead of {w[3]}" if w else f"{done} instantiations", f"second request {w[2]} vs {w[3]} (n={w[0]}, kept={w[1]})" if w else "ok")
 
 
+def r12_lattice_layout(repo: Repo, rep):
+    R = rep.rule("R-C11-12", "a lattice built with torch.stack(torch.meshgrid(..)) is flattened to rows only after the coordinate axis (axis 0 of the stack) was moved to the END "
+                 "(permute(.., 0) / .T / movedim(0, -1) / stack(dim=-1)): reshape(-1, d) then yields one (x, y, ..) tuple per row", floor=4,
+                 why="`.mT` swaps only the last two grid axes: reshape(-1, 3) then cuts rows out of ONE coordinate array - 27 rows with 4 distinct points instead of a 3 x 3 x 3 lattice")
+    from ..util import deref, single_defs
+    n = 0
+    for mname, m in repo.modules.items():
+        if ".problem.domains." not in mname:
+            continue
+        funcs = list(m.functions.values()) + [fi for ci in m.classes.values() for fi in ci.methods.values()]
+        for fi in funcs:
+            if not any(isinstance(c, ast.Call) and attr_chain(c.func) == "torch.meshgrid" for c in ast.walk(fi.node)):
+                continue
+            tmp = single_defs(fi.node)
+            seen_here = False
+            for c in ast.walk(fi.node):
+                if not (isinstance(c, ast.Call) and isinstance(c.func, ast.Attribute) and c.func.attr in ("reshape", "view") and c.args and dump(c.args[0]) in ("-1", "(-1", ) or
+                        (isinstance(c, ast.Call) and isinstance(c.func, ast.Attribute) and c.func.attr in ("reshape", "view") and c.args and isinstance(c.args[0], ast.Tuple) and c.args[0].elts and dump(c.args[0].elts[0]) == "-1")):
+                    continue
+                recv = deref(c.func.value, tmp)
+                if not any(isinstance(x, ast.Call) and attr_chain(x.func) == "torch.meshgrid" for x in ast.walk(recv)):
+                    continue
+                seen_here = True
+                n += 1
+                rep.saw(fi)
+                # peel operations from the outside in, collecting them; then replay from the stack outwards
+                ops, cur = [], recv
+                verdict = None
+                while True:
+                    ch = attr_chain(cur.func) if isinstance(cur, ast.Call) else None
+                    if isinstance(cur, ast.Call) and ch == "torch.stack" and cur.args and isinstance(cur.args[0], ast.Call) and attr_chain(cur.args[0].func) == "torch.meshgrid":
+                        mg = cur.args[0]
+                        k = len(mg.args[0].elts) if len(mg.args) == 1 and isinstance(mg.args[0], (ast.Tuple, ast.List)) else len(mg.args)
+                        d = kwarg(cur, "dim", 1)
+                        pos = 0 if d is None else (d.value if isinstance(d, ast.Constant) and isinstance(d.value, int) else (-(d.operand.value) if isinstance(d, ast.UnaryOp) and isinstance(d.op, ast.USub) and isinstance(d.operand, ast.Constant) else None))
+                        rank = k + 1
+                        if pos is None:
+                            verdict = (None, "stack axis not constant")
+                            break
+                        pos %= rank
+                        for kind, arg in reversed(ops):
+                            if kind == "permute":
+                                if len(arg) != rank:
+                                    pos = None
+                                    break
+                                pos = [a % rank for a in arg].index(pos)
+                            elif kind == "T":
+                                pos = rank - 1 - pos
+                            elif kind == "mT":
+                                pos = rank - 1 if pos == rank - 2 else rank - 2 if pos == rank - 1 else pos
+                            elif kind == "transpose":
+                                a, b = arg[0] % rank, arg[1] % rank
+                                pos = b if pos == a else a if pos == b else pos
+                            elif kind == "movedim":
+                                a, b = arg[0] % rank, arg[1] % rank
+                                order = [i for i in range(rank) if i != a]
+                                order.insert(b, a)
+                                pos = order.index(pos)
+                        verdict = (pos == rank - 1, f"coordinate axis at position {pos} of {rank} when the rows are cut") if pos is not None else (None, "permutation of another rank")
+                        break
+                    if isinstance(cur, ast.Attribute) and cur.attr in ("T", "mT"):
+                        ops.append((cur.attr, None))
+                        cur = cur.value
+                        continue
+                    if isinstance(cur, ast.Call) and (ch in ("torch.permute", "torch.transpose", "torch.movedim") or (isinstance(cur.func, ast.Attribute) and cur.func.attr in ("permute", "transpose", "movedim", "contiguous", "to", "float"))):
+                        name = cur.func.attr
+                        fn_form = ch is not None and ch.startswith("torch.")
+                        args = cur.args[1:] if fn_form else cur.args
+                        inner = cur.args[0] if fn_form else cur.func.value
+                        if name in ("contiguous", "to", "float"):
+                            cur = inner
+                            continue
+                        vals = list(args[0].elts) if len(args) == 1 and isinstance(args[0], (ast.Tuple, ast.List)) else list(args)
+                        try:
+                            nums = [ast.literal_eval(v) for v in vals]
+                        except Exception:
+                            verdict = (None, f"non-constant axes in {dump(cur)[:50]}")
+                            break
+                        ops.append((name, nums))
+                        cur = inner
+                        continue
+                    verdict = (None, f"operation {dump(cur)[:60]}")
+                    break
+                if verdict[0] is None:
+                    rep.undecided(R, fi.site(c), fi.fq, "axis bookkeeping of the lattice decidable", verdict[1])
+                else:
+                    rep.check(R, verdict[0], fi.site(c), fi.fq, "coordinate axis last before reshape(-1, d)", verdict[1], f"lattice flattened with {verdict[1]}")
+            if not seen_here:
+                n += 1
+                rep.undecided(R, fi.site(), fi.fq, "the flattening reshape(-1, d) of the meshgrid lattice", "not found")
+    if n == 0:
+        rep.undecided(R, "src/torchphysics/problem/domains", "-", "meshgrid lattices", "none found")
+
+
 def r10_weighted_second_factor(repo: Repo, rep):
     R = rep.rule("R-C11-10", "dependent product: every value of the second factor enters through the volume-weighted acceptance (_sample_uniform_b_points), also the ones that fill a shortfall", floor=1,
                  why="values drawn directly from the second factor are uniform in b instead of proportional to the measure of the slice A(b)")
@@ -676,6 +770,7 @@ def run(repo: Repo, rep):
     r10_weighted_second_factor(repo, rep)
     r9_boundary_grid_shares(repo, rep)
     r11_inside_grid_request(repo, rep)
+    r12_lattice_layout(repo, rep)
     from .c10 import r1_r2_formulas  # mixture weights and the acceptance of dependent products use the measures: a signed / wrong volume shifts the point density between members
     r1_r2_formulas(repo, rep)
     r6b_dependency_flags(repo, rep)
@@ -702,7 +797,9 @@ _TR = "src/torchphysics/problem/domains/domain2D/triangle.py"
 _U = "src/torchphysics/problem/domains/domainoperations/union.py"
 _P = "src/torchphysics/problem/domains/domainoperations/product.py"
 _RS = "src/torchphysics/problem/samplers/random_samplers.py"
+_TM = "src/torchphysics/problem/domains/domain3D/trimesh_polyhedron.py"
 MUTANTS = [
+    dict(id="C11-M60", file=_TM, old="        points = torch.permute(\n            torch.stack(torch.meshgrid(x_axis, y_axis, z_axis)), (3, 2, 1, 0)\n        )", new="        points = torch.stack(torch.meshgrid(x_axis, y_axis, z_axis)).mT", rule="R-C11-12", what="lattice flattened with the coordinate axis first (the repaired defect)"),
     dict(id="C11-M1", file=_CI, old="        r = torch.sqrt(torch.rand((num_of_params, n, 1), device=device))", new="        r = torch.rand((num_of_params, n, 1), device=device)", rule="R-C11-1", what="sqrt dropped"),
     dict(id="C11-M2", file=_SP, old="        r = torch.pow(torch.rand((num_of_params, n, 1), device=device), 1 / 3.0)", new="        r = torch.pow(torch.rand((num_of_params, n, 1), device=device), 1 / 2.0)", rule="R-C11-1", what="exponent 1/2 in the ball"),
     dict(id="C11-M3", file=_SP, old="        theta = torch.arccos(2 * theta - 1) - np.pi / 2.0\n        x = torch.multiply(torch.multiply(r,", new="        theta = torch.arccos(theta) - np.pi / 2.0\n        x = torch.multiply(torch.multiply(r,", rule="R-C11-2", what="arccos(U)"),
@@ -720,6 +817,7 @@ MUTANTS = [
 ]
 MUTANTS = [m for m in MUTANTS if m["id"] != "C11-M6"]
 TWINS = [
+    dict(id="C11-T60", file=_TM, old="        points = torch.permute(\n            torch.stack(torch.meshgrid(x_axis, y_axis, z_axis)), (3, 2, 1, 0)\n        )", new="        lattice = torch.stack(torch.meshgrid(x_axis, y_axis, z_axis))\n        points = lattice.permute(3, 2, 1, 0)", what="method form of the permutation through a temporary"),
     dict(id="C11-T1", file=_CI, old="        r = torch.sqrt(torch.rand((num_of_params, n, 1), device=device))", new="        r = torch.rand((num_of_params, n, 1), device=device) ** 0.5", what="** 0.5"),
     dict(id="C11-T2", file=_SP, old="        r = torch.pow(torch.rand((num_of_params, n, 1), device=device), 1 / 3.0)", new="        u = torch.rand((num_of_params, n, 1), device=device)\n        r = u ** (1.0 / 3)", what="temporary, ** (1/3)"),
 ]
